@@ -95,32 +95,53 @@ def convert_vcs() -> List[core.VC]:
     return vcs
 
 
-def query_vcs() -> List[core.VC]:
-    """get_runtime_launch_events_query: the selected names and the index_correlation > 0 clause."""
+def query_vcs(prop: str = PROP) -> List[core.VC]:
+    """get_runtime_launch_events_query over an ARBITRARY symbol table (any bijection ids <-> strings, any subset of the launch
+    names present, any of them at id 0): it selects exactly the rows whose name decodes to a launch name and that carry a link."""
     f = extract.get_function(ST, "TraceSymbolTable.get_runtime_launch_events_query")
-    ex = pyvc.Exec(consts=extract.module_constants(ST), name=f"{PROP}.launch_query")
-    ids = {nm: 1000 + i for i, nm in enumerate(LAUNCH_NAMES)}
-
-    class _Idx:
-        def hv_call_method(self, exq, attr, args, kwargs, pc, env):
-            if attr == "get":
-                return ids.get(args[0], args[1] if len(args) > 1 else None)
-            return NotImplemented
-
-    selfrec = pyvc.Record("TraceSymbolTable", {"sym_index": _Idx(), "NULL": -128})
-    outs = ex.run_function(extract.stripped(f), {"self": selfrec}, [])
-    rets = [o for o in outs if o.kind == "ret"]
-    if len(rets) != 1 or not isinstance(rets[0].value, str):
-        raise pyvc.Unsupported("launch query is not a single string")
-    q = rets[0].value
+    ex = pyvc.Exec(consts=extract.module_constants(ST), name=f"{prop}.launch_query")
+    fv.install(ex)
+    st = fv.SymTab("st")
+    q = st.hv_call_method(ex, "get_runtime_launch_events_query", [], {}, [], {})
     df = fv.SymDF.base("ev", {"name": (z3.IntSort(), False, "int"), "index_correlation": (z3.IntSort(), False, "int")})
-    ex2 = pyvc.Exec(name=f"{PROP}.launch_query.eval")
-    fv.install(ex2)
-    mask = fv.query_mask(ex2, df, q, {}, [])
+    mask = fv.query_mask(ex, df, q, {}, [])
     r = df.uni.skolem("r")
-    spec = z3.And(z3.Or(*[df.cols["name"].val(r) == v for v in ids.values()]), df.cols["index_correlation"].val(r) > 0)
-    return [core.VC(f"{PROP}.launch_query.selects_linked_launch_calls", [], to_z3(mask.col.val(r)) == spec, "vc", [f.fq], {"name": df.cols["name"].val(r)},
-                    note="launch calls = the eleven kernel/memcpy/memset launch names (CUDA, ROCm, MTIA) with a positive link; names absent from the table map to an id no event carries")]
+    nm = df.cols["name"].val(r)
+    spec = z3.And(z3.Or(*[st.sym(nm) == z3.StringVal(v) for v in LAUNCH_NAMES]), df.cols["index_correlation"].val(r) > 0)
+    hyps = list(ex.facts) + st.axioms(ids=[nm], strings=[z3.StringVal(v) for v in LAUNCH_NAMES]) + [st.valid(nm)]
+    vcs = [core.VC(pv.name, pv.hyps, pv.goal, "vc", [f.fq], {}, note=pv.note) for pv in ex.vcs]
+    vcs.append(core.VC(f"{prop}.launch_query.selects_linked_launch_calls", hyps, to_z3(mask.col.val(r)) == spec, "vc", [f.fq], {"name": nm, "table_size": st.n, "decoded": st.sym(nm), "link": df.cols["index_correlation"].val(r)},
+                       note="for every symbol table (a bijection between ids 0..n-1 and strings; any of the eleven launch names present or absent, at any id, 0 included) and every row "
+                            "with a valid name id: selected <=> the name decodes to a kernel/memcpy/memset launch name (CUDA, ROCm, MTIA) and the row has a positive link"))
+    vcs.append(core.VC(f"{prop}.launch_query.guard.canary_false", hyps + [spec], z3.BoolVal(False), "canary", [f.fq]))
+    return vcs
+
+
+def replay_launch_query(ctx, rec: Dict[str, Any]) -> Dict[str, Any]:
+    """the counter-model's row against the real query of a real TraceSymbolTable that gives the row's name the model's id"""
+    m = rec.get("model") or {}
+    if ".launch_query." not in rec.get("name", "") or "name" not in m or "decoded" not in m:
+        return {"confirmed": False, "why": "no replay for this obligation"}
+    import pandas as pd
+    from hta.common.trace_symbol_table import TraceSymbolTable
+
+    try:
+        nid, link = int(str(m["name"])), int(str(m.get("link", 1)))
+    except ValueError:
+        return {"confirmed": False, "why": "non-integer model"}
+    if not 0 <= nid <= 5000:
+        return {"confirmed": False, "why": "model id out of replay range"}
+    decoded = str(m["decoded"]).strip('"')
+    syms = [f"sym_{k}" for k in range(nid)] + [decoded, "sym_after"]
+    st = TraceSymbolTable()
+    st.add_symbols(syms)
+    if st.get_sym_id_map().get(decoded) != nid:
+        return {"confirmed": False, "why": "table could not be built as in the model"}
+    df = pd.DataFrame({"name": [nid], "index_correlation": [link]})
+    got = len(df.query(st.get_runtime_launch_events_query())) == 1
+    want = decoded in LAUNCH_NAMES and link > 0
+    inp = {"symbol_table": f"{nid} filler symbols, then {decoded!r} at id {nid}", "row": {"name": nid, "index_correlation": link}}
+    return {"confirmed": got != want, "input": inp, "observed": {"selected_by_query": got}, "expected": {"selected": want}}
 
 
 def _loop_over_groupby(fn_node):
@@ -480,7 +501,7 @@ SPEC = Spec(
     prop=PROP, level="other",
     functions=[(TR, "Trace.convert_time_series_to_events"), (ST, "TraceSymbolTable.get_runtime_launch_events_query"), (TC, "TraceCounters._get_queue_length_time_series_for_rank"),
                (TC, "TraceCounters._get_memory_bw_time_series_for_rank"), (TA, "TraceAnalysis.generate_trace_with_counters")],
-    units=units, bounded=[Bounded("series_vs_step_functions", bounded), Bounded("history_independence", history.stage(PROP, "queue", "gen")), Bounded("history_independence_membw", history.stage(PROP, "membw", "gen"))],
+    units=units, replay=replay_launch_query, bounded=[Bounded("series_vs_step_functions", bounded), Bounded("history_independence", history.stage(PROP, "queue", "gen")), Bounded("history_independence_membw", history.stage(PROP, "membw", "gen"))],
     trusted=["pandas contracts used by the row-local part (rename, column assignment, apply, to_dict('records'))", "float bandwidth sums treated as exact up to 1e-6"],
     explanation="Proved (z3 from the AST): counter events = series rows at ts + min_ts with {counter: value} / ph 'C' / pid / id / name; the launch query selects exactly the "
                 "eleven launch names with a positive link. Bounded (real code vs. step-function oracles, never counted as proved): both series as prefix sums per stream / copy "
